@@ -128,6 +128,10 @@ func summarize(v reflect.Value) string {
 }
 
 func main() {
+	if len(os.Args) > 1 && os.Args[1] == "demo3" {
+		demo3()
+		return
+	}
 	if len(os.Args) > 1 && os.Args[1] == "demo2" {
 		demo2()
 		return
